@@ -334,6 +334,20 @@ def dart_view_leg(rng, d, res):
         else:
             view = ("    #[diplomat::opaque] pub struct View%d(pub u8);\n    impl View%d {\n        pub fn pick<'a>(&self, x: &'a [%s]) -> Option<&'a [%s]> { unimplemented!() }\n    }\n" % (k, k, el, el))
         types.append((el, owned_first, own + view))
+    # a struct field that is a *reference to an opaque carrying its own lifetime* (`&'x OpV<'y>`) borrows under both lifetimes: it must be
+    # listed by the struct's _fieldsForLifetimeX and _fieldsForLifetimeY (seed C04-i: Dart listed it under the reference's lifetime only)
+    nv = []
+    for k in range(2):
+        fl = [("r", "&'x OpV<'y>", {"x", "y"}), ("s", "&'y OpPlain", {"y"}), ("t", "DiplomatSlice<'x, u8>", {"x"}), ("u", "u16", set()), ("v", "Option<&'y OpV<'x>>", {"x", "y"})]
+        rng.shuffle(fl)
+        fl = fl[:rng.randint(3, 5)]
+        if not any(f[0] == "r" for f in fl):
+            fl.append(("r", "&'x OpV<'y>", {"x", "y"}))
+        bounds = ("'y: 'x" if any(f[0] == "r" for f in fl) else "'y") + ", " + ("'x: 'y" if any(f[0] == "v" for f in fl) else "'x")
+        nv.append(("NV%d" % k, fl))
+        types.append((None, None, "    pub struct NV%d<'x, 'y> { %s }\n    #[diplomat::opaque] pub struct NVH%d(pub u8);\n    impl NVH%d {\n        pub fn take<%s>(s: NV%d<'x, 'y>) -> &'y OpPlain { unimplemented!() }\n    }\n" % (
+            k, ", ".join("pub %s: %s" % (fn, ty) for fn, ty, _ in fl), k, k, ", ".join(sorted(bounds.split(", "), key=lambda b_: b_[1])), k)))
+    types.append((None, None, "    #[diplomat::opaque] pub struct OpV<'p>(pub &'p u8);\n    #[diplomat::opaque] pub struct OpPlain(pub u8);\n"))
     dd = os.path.join(d, "dartview")
     os.makedirs(dd, exist_ok=True)
     src = os.path.join(dd, "lib.rs")
@@ -344,6 +358,15 @@ def dart_view_leg(rng, d, res):
         res["inconc"].append("dart view leg: tool %s: %s" % (kind, str(det)[:200]))
         return
     text = "".join(open(os.path.join(r_, f)).read() for r_, _, fs in os.walk(os.path.join(dd, "out")) for f in sorted(fs) if f.endswith(".dart"))
+    for name, fl in nv:
+        fpath = os.path.join(dd, "out", name + ".g.dart")
+        got = parse_struct_getters("dart", open(fpath).read()) if os.path.exists(fpath) else {}
+        for lt in ("x", "y"):
+            res["st"]["struct_getters_checked"] += 1
+            exp = {(fn, "direct") for fn, ty, lts in fl if lt in lts}
+            if not exp <= got.get(lt, set()):
+                res["viol"].append((None, "dart: struct `%s<'x, 'y> { %s }`: _fieldsForLifetime%s yields %s, fields borrowing '%s are %s (missing %s)" % (
+                    name, ", ".join("%s: %s" % (fn, ty) for fn, ty, _ in fl), lt.upper(), sorted(got.get(lt, set())), lt, sorted(exp), sorted(exp - got.get(lt, set())))))
     helpers = re.findall(r"final class (_Slice\w+) extends ffi\.Struct \{(.*?)\n\}\n", text, re.S)
     res["st"]["dart_view_helpers_checked"] = res["st"].get("dart_view_helpers_checked", 0)
     for name, body in helpers:
@@ -356,7 +379,7 @@ def dart_view_leg(rng, d, res):
         uses = len(re.findall(r"\b%s\b(?!\.isEmpty)" % edges, fn))
         if is_view and uses == 0:
             res["viol"].append((None, "dart: %s._toDart returns a view of Rust memory (asTypedList) but never attaches the lifetime edges it is given: the collector may free "
-                                      "the owner while the view is in use (element types / owned-first in this program: %s)" % (name, [(el, of) for el, of, _ in types])))
+                                      "the owner while the view is in use (element types / owned-first in this program: %s)" % (name, [(el, of) for el, of, _ in types if el])))
 
 
 def main(tier, seed):
